@@ -118,7 +118,61 @@ def export(name, until_year, out):
     return len(trans)
 
 
+FAR_YEARS = (2400, 2801, 5000, 9998)
+
+
+def export_far(name, out):
+    """Windows far beyond the table, for zones whose footer carries a DST rule: the transitions of
+    [Y-1 Dec 1, Y+1 Feb 1) found by bisecting zoneinfo's utcoffset, emitted as a separate `Z` entry."""
+    p = parse_tzif(os.path.join(ZI, name))
+    if p is None or "," not in p[3]:
+        return 0
+    z = zoneinfo.ZoneInfo(name)
+    n = 0
+    for y in FAR_YEARS:
+        a = int(dt.datetime(y - 1, 12, 1, tzinfo=UTC).timestamp())
+        b = int(dt.datetime(min(y + 1, 9999), 2 if y + 1 < 9999 else 12, 1, tzinfo=UTC).timestamp())
+        t, cur = a, off_at(z, a)
+        initial = cur
+        trans = []
+        while t < b:
+            nx = min(t + 86400 * 5, b)
+            o = off_at(z, nx)
+            if o != cur:
+                lo, hi = t, nx
+                while hi - lo > 1:
+                    mid = (lo + hi) // 2
+                    if off_at(z, mid) == cur:
+                        lo = mid
+                    else:
+                        hi = mid
+                trans.append((hi, o))
+                cur = o
+            t = nx
+        # keep only windows whose transitions are well inside
+        trans = [(t, o) for (t, o) in trans]
+        if not trans or trans[0][0] - a < 25 * 86400 or b - trans[-1][0] < 25 * 86400:
+            continue
+        out.write(f"Z {name} {initial}\n")
+        for (t, o) in trans:
+            out.write(f"T {t} {o}\n")
+        n += len(trans)
+    return n
+
+
 def main():
+    if len(sys.argv) > 2 and sys.argv[1] == "--far":
+        dest = sys.argv[2]
+        n = 0
+        with open(dest + ".tmp", "w") as out:
+            for name in names():
+                try:
+                    n += export_far(name, out)
+                except (zoneinfo.ZoneInfoNotFoundError, FileNotFoundError, ValueError):
+                    continue
+        os.replace(dest + ".tmp", dest)
+        print(f"exported {n} far-future transitions to {dest}")
+        return
     dest = sys.argv[1]
     until = int(sys.argv[2]) if len(sys.argv) > 2 else 2120
     tmp = dest + ".tmp"
